@@ -3,9 +3,11 @@ package batch
 import (
 	"errors"
 	"fmt"
+	"math/big"
 	"slices"
 	"strconv"
 	"strings"
+	"unicode"
 
 	"github.com/monstermichl/typeshell/parser"
 	"github.com/monstermichl/typeshell/transpiler"
@@ -265,6 +267,7 @@ func (c *converter) SliceAssignment(name string, index string, value string, def
 }
 
 func (c *converter) FuncStart(name string, params []string, returnTypes []parser.ValueType) error {
+	name = caseSafeName(name)
 	c.funcCounter++
 	c.funcs = append(c.funcs, funcInfo{
 		name: name,
@@ -659,7 +662,7 @@ func (c *converter) Group(value string, valueUsed bool) (string, error) {
 
 func (c *converter) FuncCall(name string, args []string, returnTypes []parser.ValueType, valueUsed bool) ([]string, error) {
 	returnValues := []string{}
-	c.callFunc(name, args)
+	c.callFunc(caseSafeName(name), args)
 
 	if valueUsed {
 		for i := range returnTypes {
@@ -772,7 +775,26 @@ func (c *converter) callEchoFunc(values ...string) {
 	c.addLine(c.callFuncString(echoHelper, []string{strings.Join(values, " ")}))
 }
 
+// caseSafeName makes user-defined names unique regardless of letter case because cmd.exe does not
+// distinguish variable names and labels by case (x and X would be the same variable). The positions
+// of the upper-case letters are appended as a hexadecimal number.
+func caseSafeName(name string) string {
+	if !strings.HasPrefix(name, transpiler.UserNamePrefix) {
+		return name
+	}
+	positions := new(big.Int)
+
+	for i, r := range name {
+		if unicode.IsUpper(r) {
+			positions.SetBit(positions, i, 1)
+		}
+	}
+	return fmt.Sprintf("%s_%s", name, positions.Text(16))
+}
+
 func (c *converter) varName(name string, global bool) string {
+	name = caseSafeName(name)
+
 	if c.inFunction() && !global {
 		name = fmt.Sprintf("f%d_%s", c.funcCounter, name)
 	}
